@@ -120,6 +120,7 @@ var undecidedClauses = map[string][]string{
 	"C09": {"actual inter-arrival times (sleeps are no-ops in the model)", "equality of client and server tables needs both processes to run with the same -obfs4-distBias flag (configuration assumption)"},
 	"C10": {"memory held inside dependencies (bufio, http.Transport), goroutine liveness, stack depth", "network-facing functions not listed under functions_under_contract in this evidence are not covered yet"},
 	"C12": {"exactness of the floating-point alias tables (floating point is uninterpreted)", "table generation loops (genValues/genWeights/genTables) are not yet under contract"},
+	"C13": {"interoperation with an actual independent obfs3 implementation (the specification is encoded in the postconditions)", "number theory behind the two MODEXP axioms and that modpStr is the 1536-bit RFC 3526 prime", "Dial/WrapConn callers"},
 	"C14": {"interoperation with an actual independent implementation (the specification is encoded in the postconditions instead)", "AES-CTR/SHA-256 themselves (uninterpreted)", "Dial/WrapConn callers and the precondition that the wrapped conn is not itself an obfs2Conn"},
 	"C15": {"behaviour against an actual conforming server (none in the tree)", "stream / ticket / packet clauses are not yet under contract"},
 	"C17": {"exact parse result of parseClientParameters (escape-processing state machine into a map) and its round trip with an encoder that is not part of /repo", "Handshake returns success even if disarming the deadline failed (the deferred closure assigns a local that was already returned) - observation, not part of C17"},
